@@ -34,6 +34,16 @@ def CertFwd (x : Array UInt8) (crit : Nat) (shift : Shift) : Prop :=
   | .large s => (0 < x.size → 1 ≤ s) ∧ ∀ k, Per x k → s ≤ k
   | .small p => Per x p ∧ ∀ k, Per x k → p ≤ k
 
+/-- What soundness of a reported match (`find_sound`) needs about the `TwoWay` value instead of
+a certificate: the critical position is inside the needle and the shift is positive; in the
+`Small` case additionally that `period` really is a period of the needle with
+`critical_pos <= period <= len`.  `Finder::new` establishes all of it
+(`Proofs/TwoWayNew.lean`: the `Suffix::forward` invariants (I0), (I1) and `Shift::forward`'s
+own `is_suffix(&v[..period], u)` test). -/
+def SoundPre (x : Array UInt8) (crit : Nat) : Shift → Prop
+  | .large s => crit ≤ x.size ∧ 1 ≤ s
+  | .small p => crit < x.size ∧ Per x p ∧ crit ≤ p ∧ p ≤ x.size
+
 /-! ### consequences -/
 
 theorem per_of_size_le (x : Array UInt8) {k : Nat} (h1 : 1 ≤ k) (h : x.size ≤ k) : Per x k :=
